@@ -42,6 +42,9 @@ func main() {
 	keep := fs.Bool("keep", false, "keep smt files")
 	timeout := fs.Int("timeout", 0, "per-obligation timeout (s)")
 	jobs := fs.Int("j", 12, "parallel solver jobs")
+	only := fs.String("only", "", "verify: solve only obligations whose name contains this substring")
+	nocache := fs.Bool("nocache", false, "do not use the proof cache")
+	fast := fs.Bool("fast", false, "development mode: short timeouts, first solver stage only")
 	pkgsFlag := fs.String("pkgs", "./...", "package patterns (comma separated)")
 	_ = fs.Parse(os.Args[2:])
 
@@ -52,6 +55,10 @@ func main() {
 	}
 	if *timeout > 0 {
 		opts.TimeoutS = *timeout
+	}
+	if *fast {
+		opts.TimeoutS = 3
+		fastMode = true
 	}
 	work, err := os.MkdirTemp("", "govc-")
 	if err != nil {
@@ -68,6 +75,10 @@ func main() {
 	}
 	if err := e.loadContracts(filepath.Join(*verif, "contracts", "extern")); err != nil {
 		fatal(err)
+	}
+	if !*nocache && *tier != "thorough" {
+		e.cache = loadProofCache(filepath.Join(*verif, "cache", "proofs.txt"))
+		defer e.cache.save()
 	}
 	if err := e.loadAxioms(); err != nil {
 		fatal(err)
@@ -100,9 +111,15 @@ func main() {
 		for _, pat := range fs.Args() {
 			targets = append(targets, e.matchFuncs(pat)...)
 		}
-		run := e.verifyFunctions(targets, nil)
+		var filter func(*Obligation) bool
+		if *only != "" {
+			filter = func(o *Obligation) bool { return strings.Contains(o.Name, *only) }
+		}
+		run := e.verifyFunctions(targets, filter)
 		run.print(os.Stdout, *verbose)
+		e.cache.save()
 		if run.failed() {
+			os.RemoveAll(work)
 			os.Exit(1)
 		}
 	case "claims":
@@ -132,7 +149,12 @@ func main() {
 		if *prop == "" {
 			usage()
 		}
-		os.Exit(e.checkProperty(*prop, *tier, *verif, time.Now()))
+		code := e.checkProperty(*prop, *tier, *verif, time.Now())
+		e.cache.save()
+		if !*keep {
+			os.RemoveAll(work)
+		}
+		os.Exit(code)
 	default:
 		usage()
 	}
@@ -425,6 +447,15 @@ func (e *Engine) solveAll(obs []*Obligation, stats *SolverStats) {
 				o.parts = append(o.parts, e.buildQuery(o.PC, c, true))
 			}
 		}
+		if o.frameGoal != nil {
+			var qf []*Term
+			for _, t := range o.PC {
+				if !hasQuantifier(t) {
+					qf = append(qf, t)
+				}
+			}
+			o.frameQuery = e.buildQuery(qf, o.frameGoal, false)
+		}
 		for i := range o.views {
 			vw := &o.views[i]
 			vw.query = e.buildQuery(vw.pc, o.Goal, true)
@@ -472,6 +503,22 @@ func (e *Engine) solveAll(obs []*Obligation, stats *SolverStats) {
 					}
 				}(first.Name)
 				name := fmt.Sprintf("%x", hashString(q))
+				ckey := ""
+				if e.cache != nil && first.Kind != "reach" {
+					ckey = proofKey(q)
+					if e.cache.has(ckey) {
+						res := SolveResult{Status: "unsat", Solver: "cache"}
+						for _, o := range group {
+							o.Result = res
+						}
+						return
+					}
+				}
+				defer func() {
+					if ckey != "" && group[0].Result.Status == "unsat" {
+						e.cache.add(ckey)
+					}
+				}()
 				to := e.opts.TimeoutS
 				if first.Kind == "reach" {
 					to = 2 // unknown is an acceptable answer for reachability
@@ -499,6 +546,17 @@ func (e *Engine) solveAll(obs []*Obligation, stats *SolverStats) {
 						res.Solver = pr.Solver + "(split)"
 					}
 					return res
+				}
+				// proof by framing: quantifier-free sufficient condition
+				if first.frameQuery != "" {
+					fr := SolveHint(e.opts.WorkDir, name+"f", first.frameQuery, 4, stats, first.Name+"#frame")
+					if fr.Status == "unsat" {
+						fr.Solver += "(framing)"
+						for _, o := range group {
+							o.Result = fr
+						}
+						return
+					}
 				}
 				// cheaper views first (sound: fewer assumptions)
 				for vi, vw := range first.views {
@@ -564,6 +622,9 @@ func (r *Run) print(w *os.File, verbose bool) {
 	for _, f := range r.Funcs {
 		okN, badN := 0, 0
 		for _, o := range append(append([]*Obligation{}, f.Obs...), f.Reach...) {
+			if !o.Static && o.Result.Status == "" {
+				continue // filtered out
+			}
 			if o.ok() {
 				okN++
 			} else {
@@ -575,6 +636,9 @@ func (r *Run) print(w *os.File, verbose bool) {
 			fmt.Fprintf(w, "  UNVERIFIED: %s\n", u)
 		}
 		for _, o := range append(append([]*Obligation{}, f.Obs...), f.Reach...) {
+			if !o.Static && o.Result.Status == "" {
+				continue
+			}
 			if !o.ok() || verbose {
 				status := o.Result.Status
 				if o.Static {
